@@ -2,7 +2,7 @@
     (what is checked of the strict parse of one protected replacement). *)
 From Coq Require Import NArith List Bool Arith.
 From PLV Require Import Base.PyStr Enc.Encoder Enc.Builtin Enc.RoundTrip.
-From PLV Require Import Proofs.EncBuiltinFacts Proofs.RoundTripDefs.
+From PLV Require Import Proofs.EncBuiltinFacts Proofs.FastProtection Proofs.RoundTripDefs.
 From PLV Require Import Gen.GenBaseline.
 Import ListNotations.
 Local Open Scope N_scope.
@@ -10,8 +10,13 @@ Local Open Scope N_scope.
 (** the five named protection schemes *)
 Definition all_prots : list prot := [PNone; PBraces; PBracesAll; PBracesAlmostAll; PBracesAfterMacro].
 
-(** strict parse of the chunk a table entry becomes *)
-Definition chunk_parse (p : prot) (r : str) : inertres := parse_encoded (apply_protection p r).
+(** strict parse of the chunk a table entry becomes (evaluated with the
+    cheaper, provably equal form of the protection, [Proofs/FastProtection.v]) *)
+Definition chunk_parse (p : prot) (r : str) : inertres := parse_encoded (apply_protection_fast p r).
+
+Lemma chunk_parse_eq xml p c r : In (c, r) (table_of xml) ->
+  chunk_parse p r = parse_encoded (apply_protection p r).
+Proof. intros H. unfold chunk_parse. now rewrite <- (chunk_fast_eq xml p c r H). Qed.
 
 (** keys excluded from the parse sweep: the C13 known findings (unicode-xml only) *)
 Definition excluded (xml : bool) : list N := if xml then known_xml_unparseable else [].
@@ -33,9 +38,9 @@ Definition bad_entries (xml : bool) (p : prot) : list N :=
 
 Lemma bad_entries_nil xml p : bad_entries xml p = [] ->
   forall c r, In (c, r) (table_of xml) -> ~ In c (excluded xml) ->
-  exists m, chunk_parse p r = IParsed 0 0 m /\ (m <> O -> In 36 r).
+  exists m, parse_encoded (apply_protection p r) = IParsed 0 0 m /\ (m <> O -> In 36 r).
 Proof.
-  unfold bad_entries. intros H c r Hin Hex.
+  unfold bad_entries. intros H c r Hin Hex. rewrite <- (chunk_parse_eq xml p c r Hin).
   assert (Hf : filter (fun kv => negb (entry_ok xml p kv)) (table_of xml) = [])
     by (destruct (filter _ _); [reflexivity|discriminate]).
   pose proof (filter_negb_nil (entry_ok xml p) (table_of xml) Hf (c, r) Hin) as Hok.
